@@ -5,6 +5,8 @@ cd /repo && git diff --quiet || { echo "/repo not clean"; exit 2; }
 git -C /repo apply $P || exit 2
 cd /verif && ./check $ID --tier $TIER > /tmp/try_seed.out 2>&1; RC=$?
 git -C /repo checkout -- .
+# (leave a binary of the restored tree behind, not the mutated one)
+(cd /verif && python3 -c "import sys; sys.path.insert(0, '/verif'); from vlib import common; common.build_s4()" > /dev/null 2>&1)
 echo "try_seed: check=$ID patch=$P rc=$RC violations=$(grep -c '^VIOLATION' /tmp/try_seed.out) drift=$(grep -c '^DRIFT' /tmp/try_seed.out) known=$(grep -c '^KNOWN' /tmp/try_seed.out)"
 grep -A1 '^VIOLATION' /tmp/try_seed.out | head -${TAILN:-6}
 grep 'TOOL-ERROR' /tmp/try_seed.out | head -3
